@@ -31,6 +31,9 @@ func rangeLabels(rs []Range, l map[string]bool) (longQ, zeroQ bool) {
 		l["3+ ranges"] = true
 	}
 	for i, r := range rs {
+		if r.Blank > 0 && (i == 0 || r.NL) {
+			l["empty header line"] = true
+		}
 		if i > 0 && r.NL {
 			l["several header lines"] = true
 		}
